@@ -218,11 +218,24 @@ impl World {
 
 /// Element counts of the typed slice requests: small, or so large that `count * size_of::<T>()`
 /// does not fit a machine word (the byte count would wrap to a small number).
+/// (2 000 000 and up: the byte size itself still fits, but adding it to the bump pointer does not.)
 fn count32(x: u64) -> usize {
-    if x >= 1_000_000 { (1usize << 62) + (x as usize % 1000) } else { x as usize % 5000 }
+    if x >= 2_000_000 {
+        (usize::MAX - 63 - 4 * (x as usize % 1000)) / 4
+    } else if x >= 1_000_000 {
+        (1usize << 62) + (x as usize % 1000)
+    } else {
+        x as usize % 5000
+    }
 }
 fn count128(x: u64) -> usize {
-    if x >= 1_000_000 { (1usize << 60) + (x as usize % 300) } else { x as usize % 300 }
+    if x >= 2_000_000 {
+        (usize::MAX - 63 - 16 * (x as usize % 300)) / 16
+    } else if x >= 1_000_000 {
+        (1usize << 60) + (x as usize % 300)
+    } else {
+        x as usize % 300
+    }
 }
 
 fn sel(n: u64, len: usize) -> usize {
@@ -748,7 +761,7 @@ impl Engine for C11 {
             let op = if c < 38 {
                 json!(["alloc", a, gen_size(&mut r, maxcap), if r.chance(4) { r.range(13, 18) } else { r.below(13).min(if r.chance(80) { 7 } else { 12 }) }, u64::from(r.chance(20)), r.next() & 0xff])
             } else if c < 43 {
-                json!(["uninit", a, r.below(3), if r.chance(6) { 1_000_000 + r.below(2000) } else { r.below(6000) }])
+                json!(["uninit", a, r.below(3), if r.chance(8) { 1_000_000 + r.below(2_000_000) } else { r.below(6000) }])
             } else if c < 58 {
                 json!(["grow", a, r.below(64), r.pick(&[0u64, 1, 8, 100, 5000, 65536, 70000, 400_000]), u64::from(r.chance(25))])
             } else if c < 62 {
